@@ -55,8 +55,17 @@ type Contract struct {
 	Exceptional []*Clause // onpanic ensures
 	Witnesses   []*Witness
 	Splits      [][]*Clause // case splits applied to every ensures clause (cartesian product)
+	DynCalls    []*DynCall
+	Uses        []string // axioms assumed in this function
 	TrustFrame  bool     // the modifies clause is assumed, not checked (reported as an assumption)
 	Unfold      []string // callees (by key suffix) to inline in this function even when they have loops / contracts
+}
+
+// DynCall: "dyncall <field> requires label:: expr" - an obligation at every call through a function value loaded
+// from a struct field of that name; the call's arguments are arg0, arg1, ...
+type DynCall struct {
+	Field  string
+	Clause *Clause
 }
 
 // Witness: a ghost out-parameter; "witness s = expr after callee#n" binds s to expr evaluated right
@@ -81,6 +90,7 @@ type ContractSet struct {
 	Files   []string
 	Defines map[string]*Define // "pkgpath.name"
 	Globals []*GlobalInv
+	Axioms  map[string]*GlobalInv // "pkgpath.name": assumed facts (never verified here; listed as assumptions)
 }
 
 // GlobalInv: "//@ global label:: expr" - a Go expression over package-level variables that are never written
@@ -92,7 +102,7 @@ type GlobalInv struct {
 }
 
 func newContractSet() *ContractSet {
-	return &ContractSet{ByKey: map[string]*Contract{}, Defines: map[string]*Define{}}
+	return &ContractSet{ByKey: map[string]*Contract{}, Defines: map[string]*Define{}, Axioms: map[string]*GlobalInv{}}
 }
 
 func (cs *ContractSet) get(key string) *Contract {
@@ -150,6 +160,19 @@ func (cs *ContractSet) parseFile(path, pkgPath string) error {
 				return fmt.Errorf("%s:%d: %v in %q", path, ln, err, body)
 			}
 			cs.Defines[pkgPath+"."+name] = &Define{Name: name, Params: params, Body: e, Text: body}
+			continue
+		}
+		if word == "axiom" {
+			i := strings.Index(rest, "::")
+			if i < 0 {
+				return fmt.Errorf("%s:%d: axiom needs a name: axiom name:: expr", path, ln)
+			}
+			name, text := strings.TrimSpace(rest[:i]), strings.TrimSpace(rest[i+2:])
+			e, err := parser.ParseExpr(text)
+			if err != nil {
+				return fmt.Errorf("%s:%d: %v in %q", path, ln, err, text)
+			}
+			cs.Axioms[pkgPath+"."+name] = &GlobalInv{Pkg: pkgPath, Clause: &Clause{Label: name, Text: text, Expr: e, File: path, Line: ln}}
 			continue
 		}
 		if word == "global" {
@@ -319,6 +342,22 @@ func (cs *ContractSet) parseFile(path, pkgPath string) error {
 				alts = append(alts, c)
 			}
 			cur.Splits = append(cur.Splits, alts)
+		case "dyncall":
+			fld, r2 := splitWord(rest)
+			kw, r3 := splitWord(r2)
+			if kw != "requires" {
+				return fmt.Errorf("%s:%d: dyncall <field> requires <expr>", path, ln)
+			}
+			c, err := mk(r3)
+			if err != nil {
+				return err
+			}
+			if c.Label == "" {
+				c.Label = strconv.Itoa(len(cur.DynCalls) + 1)
+			}
+			cur.DynCalls = append(cur.DynCalls, &DynCall{Field: fld, Clause: c})
+		case "uses":
+			cur.Uses = append(cur.Uses, strings.Fields(rest)...)
 		case "trustframe":
 			cur.TrustFrame = true
 		case "unfold":
